@@ -174,6 +174,35 @@ def dco_tie(ctx, src, work):
             ctx.dco_first = 'only in model %r, only in pass output %r' % (only_m, only_r)
 
 
+def fanout_tie(ctx, src, work):
+    """two_way_fanout read backwards: removing the `w` nets it inserted (each leaf replaced by the root of its tree) is a
+    justified alias elimination on the block AFTER the pass (Lean: Alias.schedsOkB) whose result is the block BEFORE it"""
+    from checks.c04 import _real_nets, _model_nets
+    ser = Ser(work)
+    orig = {w.name for w in src.wirevector_set}
+    new_w = {n.dests[0]: n.args[0] for n in ser.nets if n.op == 'w' and n.dests[0].name not in orig}
+    removed = [i for i, n in enumerate(ser.nets) if n.op == 'w' and n.dests[0].name not in orig]
+
+    def root(w, depth=0):
+        return w if w not in new_w or depth > 500 else root(new_w[w], depth + 1)
+    sigma = [[ser.wid[ser.nets[i].dests[0]], ser.wid[root(ser.nets[i].dests[0])]] for i in removed]
+    resp = ctx.driver.ask({'cmd': 'alias', 'block': ser.data, 'removed': removed, 'sigma': sigma})
+    if not resp.get('ok'):
+        raise RuntimeError('alias model: %s' % resp)
+    ctx.fo_n = getattr(ctx, 'fo_n', 0) + 1
+    ctx.count('fanout-tie-inserted-w-nets', min(len(removed), 6))
+    if not resp['scheds_ok']:
+        ctx.fo_notok = getattr(ctx, 'fo_notok', 0) + 1
+        ctx.fo_first = getattr(ctx, 'fo_first', None) or ('certificate not accepted (cert_ok=%s), %d inserted w nets' % (resp['cert_ok'], len(removed)))
+    memname = {mid: m.name for mid, m in ser.mems.items()}
+    want = _model_nets(resp['nets'], ser.data['wires'], [w_.name for w_ in ser.wires], memname)
+    got = _real_nets(src)
+    if want != got:
+        ctx.fo_bad = getattr(ctx, 'fo_bad', 0) + 1
+        ctx.fo_first = getattr(ctx, 'fo_first', None) or ('only in model %r, only in the block before the pass %r' % (
+            [x for x in want if x not in got][:2], [x for x in got if x not in want][:2]))
+
+
 def check_seq(ctx, label, src, seq, steps, memmap_by_id, replay0):
     replay = dict(replay0, variant=label, passes=list(seq), block=Ser(src).data)
     ins0, outs0 = passlib.io_names(src)
@@ -197,6 +226,11 @@ def check_seq(ctx, label, src, seq, steps, memmap_by_id, replay0):
             return False
         if len(seq) == 1 and pname in LOWER_RULES:
             model_tie(ctx, pname, src, work)
+        if len(seq) == 1 and pname == 'two_way_fanout':
+            if len(work.logic) <= 70:
+                fanout_tie(ctx, src, work)
+            else:
+                ctx.count('fanout-tie-skipped-large-block', 'n')
         if len(seq) == 1 and pname == 'direct_connect_outputs':
             if len(src.logic) <= 90:
                 dco_tie(ctx, src, work)      # the model (written for proofs, not speed) is cubic in the net count
@@ -372,6 +406,11 @@ def main(ctx):
                db == 0 and dk == 0 and dn > 0,
                '%d/%d blocks differ, %d not chainOkB%s' % (db, dn, dk, ('; first: ' + ctx.dco_first) if getattr(ctx, 'dco_first', None) else ''))
     ctx.extra['dco_tie'] = {'blocks': dn, 'differ': db, 'not_chain_ok': dk}
+    fn_, fb, fk = getattr(ctx, 'fo_n', 0), getattr(ctx, 'fo_bad', 0), getattr(ctx, 'fo_notok', 0)
+    ctx.oblige('tie:removing the w nets two_way_fanout inserted is a justified alias elimination (Lean Alias.schedsOkB) on the block after '
+               'the pass whose result is the block before it (net by net)', fb == 0 and fk == 0 and fn_ > 0,
+               '%d/%d blocks differ, %d certificates not accepted%s' % (fb, fn_, fk, ('; first: ' + ctx.fo_first) if getattr(ctx, 'fo_first', None) else ''))
+    ctx.extra['fanout_tie'] = {'blocks': fn_, 'differ': fb, 'not_accepted': fk}
     ctx.oblige('oracle:Spec(pass-sequence(b))=Spec(b); well-formed; io kept; postconditions', not ctx.violations,
                '%d/%d pass sequences agree' % (agree, total))
     return conclude(ctx, rule='random designs (registers and memories feeding Outputs directly, fan-outs up to the pool '
